@@ -129,6 +129,9 @@ var fieldSets = []fieldSet{
 	{"scalars", map[string]any{"a": "x", "b": int64(1), "c": 1.5, "d": true}, map[string]any{"a": "y", "b": int64(2), "trace.parent_id": "p"}},
 	{"odd-types", map[string]any{"a": []any{int64(1), "x"}, "b": map[string]any{"k": int64(1)}, "c": nil, "u": uint64(1<<64 - 1)},
 		map[string]any{"a": 2.5, "b": true, "trace.parent_id": "p"}},
+	// the same non-scalar type on consecutive spans of one trace (values that Go cannot compare with ==)
+	{"odd-types-on-every-span", map[string]any{"a": []any{int64(1), "x"}, "b": map[string]any{"k": int64(1)}, "c": []any{}},
+		map[string]any{"a": []any{int64(2)}, "b": map[string]any{"k": int64(2)}, "c": []any{}, "trace.parent_id": "p"}},
 	{"absent", map[string]any{"z": "1"}, map[string]any{"z": int64(2), "trace.parent_id": "p"}},
 	{"strings", map[string]any{"a": "", "b": "9223372036854775808", "c": "true"}, map[string]any{"a": strings.Repeat("x", 300), "b": "1.5e3", "trace.parent_id": "p"}},
 }
